@@ -335,7 +335,7 @@ def known_findings(prop):
     return [f for f in d.get("findings", []) if f.get("property") == prop]
 
 
-GEN_OWNERS = {"Loc.lean": ("C07", "C10", "C19"), "C20.lean": ("C20",), "C18.lean": ("C18",), "C12.lean": ("C12",), "C11.lean": ("C11",), "C16.lean": ("C16",)}
+GEN_OWNERS = {"Loc.lean": ("C07", "C10", "C19"), "C20.lean": ("C20",), "C18.lean": ("C18",), "C12.lean": ("C12",), "C11.lean": ("C11",), "C16.lean": ("C16",), "C13.lean": ("C13",)}
 
 
 def restore_foreign_gen(prop):
